@@ -275,8 +275,17 @@ pub struct SampledSubj {
     rewrite: Option<Ints>,
 }
 pub fn mk_sampled(max_cost: i64, samples: usize, ctor: u64) -> SampledSubj {
+    // all seven constructors; with the default hasher / key hasher types they build the same type
+    // (0, 2, 4 take the default number of samples, 5)
+    use caches::lfu::DefaultKeyHasher as DK;
+    use caches::DefaultHashBuilder as DH;
     let s = match ctor {
         0 if samples == 5 => SampledLFU::<TKey>::new(max_cost),
+        2 if samples == 5 => SampledLFU::<TKey>::with_hasher(max_cost, DH::default()),
+        3 => SampledLFU::<TKey>::with_samples_and_hasher(max_cost, samples, DH::default()),
+        4 if samples == 5 => SampledLFU::<TKey>::with_key_hasher(max_cost, DK::<TKey>::default()),
+        5 => SampledLFU::<TKey>::with_samples_and_key_hasher(max_cost, samples, DK::<TKey>::default()),
+        6 => SampledLFU::<TKey>::with_samples_and_key_hasher_and_hasher(max_cost, samples, DK::<TKey>::default(), DH::default()),
         _ => SampledLFU::<TKey>::with_samples(max_cost, samples),
     };
     SampledSubj { s, rewrite: None }
